@@ -4,99 +4,6 @@
 import Kopf.Lemmas.C13_Renew
 namespace Kopf.C13
 
-theorem start_spec {u : Int} {s s1 : State} {i : Identity} {p L : Int} (h : step u s (.start i p L) = some s1) :
-    s1.now = s.now ∧ s1.status = s.status ∧ s1.ver = s.ver ∧ (∀ o, s.ops i = some o → o.alive = false) ∧
-      s1.ops = updOp s.ops i { prio := p, lifetime := L, alive := true, paused := true, seen := none } := by
-  simp only [step] at h
-  cases hk : s.ops i with
-  | none =>
-    simp only [hk, Option.some.injEq] at h
-    subst h
-    refine ⟨rfl, rfl, rfl, ?_, rfl⟩
-    intro o ho; cases ho
-  | some o =>
-    simp only [hk] at h
-    by_cases ha : o.alive = true
-    · simp [ha] at h
-    · rw [if_neg ha] at h
-      simp only [Option.some.injEq] at h
-      subst h
-      refine ⟨rfl, rfl, rfl, ?_, rfl⟩
-      intro o' ho'
-      injection ho' with e
-      subst e
-      simpa using ha
-
-theorem keepalive_spec {u : Int} {s s1 : State} {i : Identity} {lag : Nat} (h : step u s (.keepalive i lag) = some s1) :
-    ∃ o, s.ops i = some o ∧ o.alive = true ∧ s1.now = s.now ∧
-      s1.status = s.status.patch i (touchVal u o.prio o.lifetime (s.now - lag)) ∧
-      s1.ops = updOp s.ops i { o with nextKA := some (s.now + (o.lifetime * u - marginT u o.lifetime)) } := by
-  simp only [step] at h
-  cases hk : s.ops i with
-  | none => simp [hk] at h
-  | some o =>
-    simp only [hk] at h
-    by_cases ha : o.alive = true
-    · rw [if_pos ha] at h
-      simp only [Option.some.injEq] at h
-      subst h
-      exact ⟨o, rfl, ha, rfl, rfl, rfl⟩
-    · simp [ha] at h
-
-theorem wake_spec {u : Int} {s s1 : State} {i : Identity} {lag : Nat} (h : step u s (.wake i lag) = some s1) :
-    ∃ o, s.ops i = some o ∧ o.sleeping = true ∧ s1.now = s.now ∧
-      s1.status = s.status.patch i (touchVal u o.prio o.lifetime (s.now - lag)) ∧
-      s1.ops = updOp s.ops i { o with sleeping := false } := by
-  simp only [step] at h
-  cases hk : s.ops i with
-  | none => simp [hk] at h
-  | some o =>
-    simp only [hk] at h
-    by_cases ha : o.sleeping = true
-    · simp only [ha, if_true, Option.some.injEq] at h
-      subst h
-      exact ⟨o, rfl, ha, rfl, rfl, rfl⟩
-    · simp [ha] at h
-
-theorem exitLost_spec {u : Int} {s s1 : State} {a : Identity} (h : step u s (.exitLost a) = some s1) :
-    ∃ o, s.ops a = some o ∧ o.alive = true ∧ s1.now = s.now ∧ s1.status = s.status ∧
-      s1.ops = updOp s.ops a { o with alive := false, sleeping := false } := by
-  simp only [step] at h
-  cases hk : s.ops a with
-  | none => simp [hk] at h
-  | some o =>
-    simp only [hk] at h
-    by_cases ha : o.alive = true
-    · simp only [ha, if_true, Option.some.injEq] at h
-      subst h
-      exact ⟨o, rfl, ha, rfl, rfl, rfl⟩
-    · simp [ha] at h
-
-/-- the identities a call on `view` hands to `clean()` -/
-def staleCleaned (u : Int) (view : Status) (i : Identity) (now : Int) : List Identity :=
-  (deadPeers u now i view.peers).map (·.id)
-
-/-- does the call of operator i on `view` end in a sleep-then-touch? -/
-def willTouchView (u : Int) (view : Status) (i : Identity) (o : Op) (now : Int) : Bool :=
-  (decideCore u view.peers i o.prio true (some o.paused) now now).touch
-
-theorem stale_spec {u : Int} {s s1 : State} {i : Identity} {view : Status} (h : step u s (.deliverStale i view) = some s1) :
-    ∃ o, s.ops i = some o ∧ o.alive = true ∧ s1.now = s.now ∧
-      s1.status = s.status.eraseAll (staleCleaned u view i s.now) ∧
-      s1.ops = updOp s.ops i { o with paused := blockedB u view i o.prio s.now, seen := none, sleeping := willTouchView u view i o s.now } := by
-  simp only [step] at h
-  cases hk : s.ops i with
-  | none => simp [hk] at h
-  | some o =>
-    simp only [hk] at h
-    by_cases ha : o.alive = true
-    · simp only [ha, if_true, Option.some.injEq] at h
-      subst h
-      refine ⟨o, rfl, ha, rfl, ?_, ?_⟩
-      · simp [decideCore, staleCleaned]
-      · simp only [decideCore_status_paused, Option.getD_some, ha, willTouchView]
-    · simp [ha] at h
-
 theorem mem_eraseAll {st : Status} {ids : List Identity} {j : Identity} {r : Rec} :
     (j, r) ∈ st.eraseAll ids ↔ (j, r) ∈ st ∧ j ∉ ids := by
   simp [Status.eraseAll, List.mem_filter]
@@ -165,7 +72,7 @@ theorem ownFresh_step {u B : Int} {s s' : State} {l : Label} (hu : 0 < u) (hB0 :
       · rw [updOp_other _ _ hij] at ho
         rw [hnow, hst]; exact hinv i o k ho hal hk
   | keepalive j lag =>
-    obtain ⟨oj, hoj, _, hnow, hst, hops⟩ := keepalive_spec h
+    obtain ⟨oj, hoj, _, _, hnow, _, hst, hops⟩ := keepalive_spec h
     obtain ⟨hLj, hmj⟩ := hcfg j oj hoj
     have hml := marginT_le hu hLj
     have hrec := touch_record_ok (p := oj.prio) (now := s.now) (k := s.now + (oj.lifetime * u - marginT u oj.lifetime))
@@ -196,7 +103,7 @@ theorem ownFresh_step {u B : Int} {s s' : State} {l : Label} (hu : 0 < u) (hB0 :
         exact ⟨h1, h2, ⟨r0, (mem_patch_other (Ne.symm hij)).mpr hr0⟩,
           fun r hm => h4 r ((mem_patch_other (Ne.symm hij)).mp hm)⟩
   | wake j lag =>
-    obtain ⟨oj, hoj, _, hnow, hst, hops⟩ := wake_spec h
+    obtain ⟨oj, hoj, _, hnow, hst, hops, _⟩ := wake_spec h
     obtain ⟨hLj, hmj⟩ := hcfg j oj hoj
     refine ⟨?_, ?_⟩
     · intro i o ho
@@ -223,7 +130,7 @@ theorem ownFresh_step {u B : Int} {s s' : State} {l : Label} (hu : 0 < u) (hB0 :
         exact ⟨h1, h2, ⟨r0, (mem_patch_other (Ne.symm hij)).mpr hr0⟩,
           fun r hm => h4 r ((mem_patch_other (Ne.symm hij)).mp hm)⟩
   | exit j =>
-    obtain ⟨oj, hoj, _, hnow, hst, hops⟩ := exit_spec h
+    obtain ⟨oj, hoj, _, hnow, hst, hops, _⟩ := exit_spec h
     refine ⟨?_, ?_⟩
     · intro i o ho
       rw [hops] at ho
@@ -239,7 +146,7 @@ theorem ownFresh_step {u B : Int} {s s' : State} {l : Label} (hu : 0 < u) (hB0 :
         rw [hnow, hst]
         exact ⟨h1, h2, ⟨r0, mem_erase.mpr ⟨hr0, hij⟩⟩, fun r hm => h4 r (mem_erase.mp hm).1⟩
   | exitLost j =>
-    obtain ⟨oj, hoj, _, hnow, hst, hops⟩ := exitLost_spec h
+    obtain ⟨oj, hoj, _, hnow, hst, hops, _⟩ := exitLost_spec h
     refine ⟨?_, ?_⟩
     · intro i o ho
       rw [hops] at ho
@@ -252,8 +159,23 @@ theorem ownFresh_step {u B : Int} {s s' : State} {l : Label} (hu : 0 < u) (hB0 :
       · subst hij; simp at ho; subst ho; simp at hal
       · rw [updOp_other _ _ hij] at ho
         rw [hnow, hst]; exact hinv i o k ho hal hk
+  | exitEnd j =>
+    obtain ⟨oj, hoj, _, _, hnow, hst, _, hops⟩ := exitEnd_spec h
+    refine ⟨?_, ?_⟩
+    · intro i o ho
+      rw [hops] at ho
+      by_cases hij : i = j
+      · subst hij; simp at ho; subst ho; exact hcfg i oj hoj
+      · rw [updOp_other _ _ hij] at ho; exact hcfg i o ho
+    · intro i o k ho hal hk
+      rw [hops] at ho
+      by_cases hij : i = j
+      · subst hij; simp at ho; subst ho; simp at hal
+      · rw [updOp_other _ _ hij] at ho
+        rw [hnow, hst]; exact hinv i o k ho hal hk
+  | exitBegin j => exact absurd ha (by simp [Allowed])
   | kill j =>
-    obtain ⟨oj, hoj, _, hnow, hst, hops⟩ := kill_spec h
+    obtain ⟨oj, hoj, _, hnow, hst, hops, _⟩ := kill_spec h
     refine ⟨?_, ?_⟩
     · intro i o ho
       rw [hops] at ho
@@ -334,7 +256,7 @@ def staticAllowed (u B : Int) : Label → Bool
   | .start _ _ L => decide (1 ≤ L ∧ 2 * B < marginT u L)
   | .keepalive _ lag => decide ((lag : Int) ≤ B)
   | .wake _ lag => decide ((lag : Int) ≤ B)
-  | .exit _ | .exitLost _ | .kill _ | .deliver _ => true
+  | .exit _ | .exitLost _ | .exitEnd _ | .kill _ | .deliver _ => true
   | _ => false
 
 theorem timely_run_static {u B : Int} : ∀ (ls : List Label) (s s' : State), Timely u B s →
@@ -387,13 +309,15 @@ theorem ops_none_of_not_started {u : Int} {i : Identity} : ∀ (ls : List Label)
         obtain ⟨_, _, _, _, hops⟩ := start_spec hs
         have hij : i ≠ j := fun e => hall _ List.mem_cons_self p L (by rw [e])
         rw [hops, updOp_other _ _ hij]; exact hn
-      | keepalive j lag => obtain ⟨oj, hj, _, _, _, hops⟩ := keepalive_spec hs; exact upd hj hops
-      | exit j => obtain ⟨oj, hj, _, _, _, hops⟩ := exit_spec hs; exact upd hj hops
-      | exitLost j => obtain ⟨oj, hj, _, _, _, hops⟩ := exitLost_spec hs; exact upd hj hops
-      | kill j => obtain ⟨oj, hj, _, _, _, hops⟩ := kill_spec hs; exact upd hj hops
+      | keepalive j lag => obtain ⟨oj, hj, _, _, _, _, _, hops⟩ := keepalive_spec hs; exact upd hj hops
+      | exit j => obtain ⟨oj, hj, _, _, _, hops, _⟩ := exit_spec hs; exact upd hj hops
+      | exitLost j => obtain ⟨oj, hj, _, _, _, hops, _⟩ := exitLost_spec hs; exact upd hj hops
+      | exitBegin j => obtain ⟨oj, hj, _, _, _, _, hops, _⟩ := exitBegin_spec hs; exact upd hj hops
+      | exitEnd j => obtain ⟨oj, hj, _, _, _, _, _, hops⟩ := exitEnd_spec hs; exact upd hj hops
+      | kill j => obtain ⟨oj, hj, _, _, _, hops, _⟩ := kill_spec hs; exact upd hj hops
       | deliver j => obtain ⟨oj, hj, _, _, _, _, _, hops⟩ := deliver_spec hs; exact upd hj hops
-      | deliverStale j v => obtain ⟨oj, hj, _, _, _, hops⟩ := stale_spec hs; exact upd hj hops
-      | wake j lag => obtain ⟨oj, hj, _, _, _, hops⟩ := wake_spec hs; exact upd hj hops
+      | deliverStale j v => obtain ⟨oj, hj, _, _, _, _, _, hops⟩ := stale_spec hs; exact upd hj hops
+      | wake j lag => obtain ⟨oj, hj, _, _, _, hops, _⟩ := wake_spec hs; exact upd hj hops
       | tick d => simp only [step, Option.some.injEq] at hs; subst hs; exact hn
       | expire j => simp only [step, Option.some.injEq] at hs; subst hs; exact hn
       | foreign j r => simp only [step, Option.some.injEq] at hs; subst hs; exact hn
